@@ -1192,3 +1192,364 @@ def g_dist(repo):
 
 
 GROUPS += [("Dist", g_dist, ["nflows/distributions/normal.py", "nflows/distributions/discrete.py", "nflows/flows/base.py"])]
+
+
+# ---------------------------------------------------------------- wrappers (CompositeTransform / InverseTransform)
+class WrapTr:
+    """A tiny imperative language -> Gallina let-chains, enough for the wrapper classes of nflows/transforms/base.py.
+    Values: data (X), log-dets (L), transforms (records with fwd / inv), lists of functions X -> X * L.
+    Statements: x = e | a, b = f(x, context) | t += e | for f in funcs: ... | return e.  Everything else: Untranslatable."""
+
+    def __init__(self, self_fields):
+        self.self_fields = self_fields          # python attribute -> (gallina name, 'tr' | 'trlist')
+
+    def expr(self, e, env):
+        if isinstance(e, ast.Name):
+            if e.id not in env:
+                raise Untranslatable("unbound name %s" % e.id, e)
+            return env[e.id]
+        if isinstance(e, ast.Tuple):
+            return "(" + ", ".join(self.expr(x, env) for x in e.elts) + ")"
+        if isinstance(e, ast.Attribute) and isinstance(e.value, ast.Name) and e.value.id == "self" and e.attr in self.self_fields:
+            g, kind = self.self_fields[e.attr]
+            # a module (list) used as a function (list of functions) means its forward
+            return "(map fwd %s)" % g if kind == "trlist" else "(fwd %s)" % g
+        if isinstance(e, ast.Call):
+            f = e.func
+            if isinstance(f, ast.Attribute) and f.attr == "new_zeros" and len(e.args) == 1:
+                return "lzero"
+            args = [a for a in e.args if not (isinstance(a, ast.Name) and a.id == "context")]
+            if len(args) != len(e.args) - 1 or e.keywords:
+                raise Untranslatable("calls must pass (data, context)", e)
+            fn = self.callee(f, env)
+            if isinstance(f, ast.Attribute) and isinstance(f.value, ast.Name) and f.value.id == "self" and f.attr == "_cascade":
+                return "(%s %s)" % (fn, " ".join(self.expr(a, env) for a in args))
+            if len(args) != 1:
+                raise Untranslatable("transform calls take one data argument", e)
+            return "(%s %s)" % (fn, self.expr(args[0], env))
+        if isinstance(e, ast.GeneratorExp) or isinstance(e, ast.ListComp):
+            if len(e.generators) != 1 or e.generators[0].ifs:
+                raise Untranslatable("generator form", e)
+            gen = e.generators[0]
+            if not isinstance(gen.target, ast.Name):
+                raise Untranslatable("generator target", e)
+            it = self.iterable(gen.iter, env, raw=True)
+            v = gen.target.id
+            elt = e.elt
+            if isinstance(elt, ast.Attribute) and isinstance(elt.value, ast.Name) and elt.value.id == v and elt.attr in ("inverse", "forward"):
+                return "(map %s %s)" % ("inv" if elt.attr == "inverse" else "fwd", it)
+            if isinstance(elt, ast.Name) and elt.id == v:
+                return "(map fwd %s)" % it
+            raise Untranslatable("generator element", e)
+        if isinstance(e, ast.Subscript):
+            return "(map fwd %s)" % self.iterable(e, env, raw=True)
+        raise Untranslatable("expression form", e)
+
+    def callee(self, f, env):
+        if isinstance(f, ast.Name):
+            if f.id not in env:
+                raise Untranslatable("unbound function %s" % f.id, f)
+            return env[f.id]
+        if isinstance(f, ast.Attribute) and isinstance(f.value, ast.Name) and f.value.id == "self" and f.attr == "_cascade":
+            return "cascade_gen"
+        if isinstance(f, ast.Attribute) and isinstance(f.value, ast.Name) and f.value.id == "self" and f.attr in self.self_fields:
+            g, kind = self.self_fields[f.attr]
+            if kind != "tr":
+                raise Untranslatable("calling a list", f)
+            return "fwd %s" % g
+        if isinstance(f, ast.Attribute) and f.attr in ("inverse", "forward") and isinstance(f.value, ast.Attribute) \
+                and isinstance(f.value.value, ast.Name) and f.value.value.id == "self" and f.value.attr in self.self_fields:
+            g, kind = self.self_fields[f.value.attr]
+            if kind != "tr":
+                raise Untranslatable("method of a list", f)
+            return "%s %s" % ("inv" if f.attr == "inverse" else "fwd", g)
+        raise Untranslatable("callee form", f)
+
+    def iterable(self, e, env, raw=False):
+        """a list of transforms (raw) -- self.<list>, optionally reversed by [::-1]"""
+        if isinstance(e, ast.Attribute) and isinstance(e.value, ast.Name) and e.value.id == "self" and e.attr in self.self_fields \
+                and self.self_fields[e.attr][1] == "trlist":
+            return self.self_fields[e.attr][0]
+        if isinstance(e, ast.Subscript) and isinstance(e.slice, ast.Slice):
+            s = e.slice
+            if s.lower is None and s.upper is None and s.step is not None and ast.unparse(s.step) == "-1":
+                return "(rev %s)" % self.iterable(e.value, env, raw=True)
+        raise Untranslatable("iterable form", e)
+
+    def block(self, stmts, env):
+        """-> gallina expression for the statements (must end in return)"""
+        if not stmts:
+            raise Untranslatable("function falls off its end")
+        st, rest = stmts[0], stmts[1:]
+        if isinstance(st, ast.Expr) and isinstance(st.value, ast.Constant):
+            return self.block(rest, env)
+        if isinstance(st, ast.Return):
+            if rest:
+                raise Untranslatable("code after return", st)
+            return self.expr(st.value, env)
+        if isinstance(st, ast.Assign) and len(st.targets) == 1:
+            t = st.targets[0]
+            if isinstance(t, ast.Name):
+                if ast.unparse(st.value) == "inputs.shape[0]":      # a size, only used to allocate zeros
+                    return self.block(rest, dict(env, **{t.id: "tt"}))
+                v = self.expr(st.value, env)
+                return "let %s := %s in\n  %s" % (t.id, v, self.block(rest, dict(env, **{t.id: t.id})))
+            if isinstance(t, ast.Tuple) and all(isinstance(x, ast.Name) for x in t.elts):
+                v = self.expr(st.value, env)
+                names = [x.id for x in t.elts]
+                env2 = dict(env, **{n: n for n in names})
+                return "let '(%s) := %s in\n  %s" % (", ".join(names), v, self.block(rest, env2))
+        if isinstance(st, ast.AugAssign) and isinstance(st.target, ast.Name) and isinstance(st.op, ast.Add):
+            n = st.target.id
+            if n not in env:
+                raise Untranslatable("augmented assignment to unbound name", st)
+            return "let %s := ladd %s %s in\n  %s" % (n, env[n], self.expr(st.value, env), self.block(rest, dict(env, **{n: n})))
+        if isinstance(st, ast.For) and isinstance(st.target, ast.Name) and not st.orelse:
+            carried = []
+            for b in st.body:
+                for tnode in ([b.target] if isinstance(b, ast.AugAssign) else b.targets if isinstance(b, ast.Assign) else []):
+                    for nm in ([tnode] if isinstance(tnode, ast.Name) else tnode.elts if isinstance(tnode, ast.Tuple) else []):
+                        if isinstance(nm, ast.Name) and nm.id in env and nm.id not in carried:
+                            carried.append(nm.id)
+            if not carried:
+                raise Untranslatable("loop without carried state", st)
+            it = self.expr(st.iter, env)
+            tup = "(" + ", ".join(carried) + ")"
+            body_env = dict(env, **{c: c for c in carried})
+            body_env[st.target.id] = st.target.id
+            ret = ast.Return(value=ast.Tuple(elts=[ast.Name(id=c, ctx=ast.Load()) for c in carried], ctx=ast.Load()))
+            body = self.block(list(st.body) + [ret], body_env)
+            init = "(" + ", ".join(env[c] for c in carried) + ")"
+            return ("let '%s := fold_left (fun st_ %s => let '%s := st_ in\n  %s) %s %s in\n  %s"
+                    % (tup, st.target.id, tup, body, it, init, self.block(rest, dict(env, **{c: c for c in carried}))))
+        raise Untranslatable("statement form", st)
+
+
+def _init_fields(fn, allowed):
+    """__init__ must be: [docstring,] super().__init__(), then only `self.<attr> = <parameter>` or
+    `self.<attr> = nn.ModuleList(<parameter>)`; returns {attr: parameter}"""
+    params = [a.arg for a in fn.args.args[1:]]
+    out = {}
+    for st in fn.body:
+        if isinstance(st, ast.Expr) and isinstance(st.value, ast.Constant):
+            continue
+        if isinstance(st, ast.Expr) and ast.unparse(st.value) == "super().__init__()":
+            continue
+        if isinstance(st, ast.Assign) and len(st.targets) == 1 and isinstance(st.targets[0], ast.Attribute) \
+                and isinstance(st.targets[0].value, ast.Name) and st.targets[0].value.id == "self":
+            v = st.value
+            if isinstance(v, ast.Call) and ast.unparse(v.func) == "nn.ModuleList" and len(v.args) == 1:
+                v = v.args[0]
+            if isinstance(v, ast.Name) and v.id in params and st.targets[0].attr in allowed:
+                out[st.targets[0].attr] = v.id
+                continue
+        raise Untranslatable("%s.__init__: only `self.<field> = <argument>` is understood" % fn.name, st)
+    return out
+
+
+def g_wrappers(repo):
+    src = Source(repo, "nflows/transforms/base.py")
+    defs = []
+    # ---- CompositeTransform
+    f = _init_fields(src.method("CompositeTransform", "__init__"), {"_transforms"})
+    if f != {"_transforms": "transforms"}:
+        raise Untranslatable("CompositeTransform.__init__ must store its argument in _transforms")
+    defs.append(("composite_init", "Definition composite_init (transforms : list tr) : list tr := transforms.\n"))
+    casc = src.method("CompositeTransform", "_cascade")
+    if [a.arg for a in casc.args.args] != ["inputs", "funcs", "context"]:
+        raise Untranslatable("_cascade signature", casc)
+    w = WrapTr({"_transforms": ("self_transforms", "trlist")})
+    body = w.block(casc.body, {"inputs": "inputs", "funcs": "funcs"})
+    defs.append(("cascade_gen", "Definition cascade_gen (inputs : X) (funcs : list (X -> X * L)) : X * L :=\n  %s.\n" % body))
+    for meth in ("forward", "inverse"):
+        m = src.method("CompositeTransform", meth)
+        if [a.arg for a in m.args.args] != ["self", "inputs", "context"]:
+            raise Untranslatable("CompositeTransform.%s signature" % meth, m)
+        body = w.block(m.body, {"inputs": "inputs"})
+        defs.append(("composite_" + meth, "Definition composite_%s (self_transforms : list tr) (inputs : X) : X * L :=\n  %s.\n" % (meth, body)))
+    # ---- InverseTransform
+    f = _init_fields(src.method("InverseTransform", "__init__"), {"_transform"})
+    if f != {"_transform": "transform"}:
+        raise Untranslatable("InverseTransform.__init__ must store its argument in _transform")
+    defs.append(("inverse_init", "Definition inverse_init (transform : tr) : tr := transform.\n"))
+    wi = WrapTr({"_transform": ("self_transform", "tr")})
+    for meth in ("forward", "inverse"):
+        m = src.method("InverseTransform", meth)
+        if [a.arg for a in m.args.args] != ["self", "inputs", "context"]:
+            raise Untranslatable("InverseTransform.%s signature" % meth, m)
+        body = wi.block(m.body, {"inputs": "inputs"})
+        defs.append(("inverse_" + meth, "Definition inverse_%s (self_transform : tr) (inputs : X) : X * L :=\n  %s.\n" % (meth, body)))
+    header = ("From NF Require Import Model.Compose.\nLocal Close Scope Z_scope.\n"
+              "Section Wrappers.\nContext {X L : Type}.\nVariables (ladd : L -> L -> L) (lzero : L).\nNotation tr := (tr X L).\n\n")
+    defs.append(("_end", "End Wrappers.\n"))
+    return defs, header
+
+
+GROUPS += [("Wrappers", g_wrappers, ["nflows/transforms/base.py"])]
+
+
+# ---------------------------------------------------------------- unconstrained_* wrappers (linear tails), per element
+def _strip_mask(e, mask):
+    """X[mask] / X[mask, :] -> X"""
+    if isinstance(e, ast.Subscript):
+        sl = e.slice
+        if isinstance(sl, ast.Name) and sl.id == mask:
+            return e.value, True
+        if isinstance(sl, ast.Tuple) and len(sl.elts) == 2 and isinstance(sl.elts[0], ast.Name) and sl.elts[0].id == mask \
+                and isinstance(sl.elts[1], ast.Slice) and sl.elts[1].lower is None and sl.elts[1].upper is None and sl.elts[1].step is None:
+            return e.value, True
+    return e, False
+
+
+def tail_wrapper(src, un_name, inner_name, prefix):
+    """Translate unconstrained_<family>_spline statement by statement into a per-element function:
+       inside the interval -> the inner spline on the element (every keyword argument translated; arguments not passed take
+       the inner function's declared default), outside -> what the tails branch writes.  Any statement outside the
+       recognised forms (e.g. a batch-wide shortcut) is untranslatable."""
+    un, inner = src.func(un_name), src.func(inner_name)
+    BOOLS = {"inverse", "enable_identity_init"}
+
+    def sig(fn):
+        args = fn.args.args
+        nd = len(args) - len(fn.args.defaults)
+        return [(a.arg, None if i < nd else fn.args.defaults[i - nd]) for i, a in enumerate(args)]
+    usig, isig = sig(un), sig(inner)
+    tensors_in = [n for n, d in isig if d is None]
+    if tensors_in[0] != "inputs":
+        raise Untranslatable("%s: first argument must be inputs" % inner_name, inner)
+    tensors_un = [n for n, d in usig if d is None]
+    scal_un = [n for n, d in usig if d is not None and n != "tails"]
+    env_scal = {n: "v_" + n for n in scal_un if n not in BOOLS}
+    tensor_expr = {n: "p_" + n for n in tensors_un[1:]}
+    tensor_expr["inputs"] = "x"
+    mask_name = outside_name = None
+    outside_vals = {}
+    inner_kwargs = None
+    seen_return = False
+    for st in un.body:
+        if isinstance(st, ast.Expr) and isinstance(st.value, ast.Constant):
+            continue
+        if seen_return:
+            raise Untranslatable("%s: code after return" % un_name, st)
+        if isinstance(st, ast.Assign) and len(st.targets) == 1 and isinstance(st.targets[0], ast.Name):
+            t, v = st.targets[0].id, st.value
+            if mask_name is None and isinstance(v, ast.BinOp) and isinstance(v.op, ast.BitAnd):
+                mask_name, mask_expr = t, v
+                continue
+            if mask_name and isinstance(v, ast.UnaryOp) and isinstance(v.op, ast.Invert) and isinstance(v.operand, ast.Name) \
+                    and v.operand.id == mask_name:
+                outside_name = t
+                continue
+            if t in ("outputs", "logabsdet") and ast.unparse(v) == "torch.zeros_like(inputs)":
+                continue
+            if isinstance(v, ast.Subscript) and isinstance(v.value, ast.Attribute) and v.value.attr == "shape":
+                continue     # a size
+            raise Untranslatable("%s: assignment form" % un_name, st)
+        if isinstance(st, ast.If) and ast.unparse(st.test) == "tails == 'linear'":
+            if not (len(st.orelse) == 1 and isinstance(st.orelse[0], ast.Raise)):
+                raise Untranslatable("%s: other tails must raise" % un_name, st)
+            for b in st.body:
+                if isinstance(b, ast.Assert):
+                    continue
+                if isinstance(b, ast.Assign) and len(b.targets) == 1:
+                    bt = b.targets[0]
+                    if isinstance(bt, ast.Subscript) and isinstance(bt.value, ast.Name) and bt.value.id in ("outputs", "logabsdet") \
+                            and isinstance(bt.slice, ast.Name) and bt.slice.id == outside_name:
+                        rhs, masked = _strip_mask(b.value, outside_name)
+                        if masked and isinstance(rhs, ast.Name) and rhs.id == "inputs":
+                            outside_vals[bt.value.id] = "x"
+                        elif isinstance(b.value, ast.Constant) and isinstance(b.value.value, (int, float)):
+                            outside_vals[bt.value.id] = lit(b.value.value)
+                        else:
+                            raise Untranslatable("%s: tails value" % un_name, b)
+                        continue
+                    # rational-quadratic: the derivative vector gets one constant at each end
+                    if isinstance(bt, ast.Name) and bt.id in tensor_expr and isinstance(b.value, ast.Call) \
+                            and ast.unparse(b.value.func) == "F.pad" and ast.unparse(b.value.args[0]) == bt.id \
+                            and [ast.unparse(k.value) for k in b.value.keywords] == ["(1, 1)"]:
+                        tensor_expr[bt.id] = "(pad_ends PAD_%s %s)" % (bt.id, tensor_expr[bt.id])
+                        continue
+                    if isinstance(bt, ast.Name) and bt.id == "constant":
+                        const_term = ExprTr(dict(env_scal), consts=src.consts).tr(b.value)
+                        continue
+                    if isinstance(bt, ast.Subscript) and isinstance(bt.value, ast.Name) and bt.value.id in tensor_expr \
+                            and ast.unparse(bt.slice) in ("(..., 0)", "(..., -1)") and ast.unparse(b.value) == "constant":
+                        which = "first" if ast.unparse(bt.slice) == "(..., 0)" else "last"
+                        outside_vals.setdefault("_pad_" + bt.value.id, set()).add(which)
+                        continue
+                raise Untranslatable("%s: statement in the tails branch" % un_name, b)
+            continue
+        if isinstance(st, ast.If) and ast.unparse(st.test) == "torch.any(%s)" % mask_name and not st.orelse and len(st.body) == 1:
+            a = st.body[0]
+            if not (isinstance(a, ast.Assign) and len(a.targets) == 1 and isinstance(a.targets[0], ast.Tuple)
+                    and [ast.unparse(x) for x in a.targets[0].elts] == ["outputs[%s]" % mask_name, "logabsdet[%s]" % mask_name]
+                    and isinstance(a.value, ast.Call) and ast.unparse(a.value.func) == inner_name and not a.value.args):
+                raise Untranslatable("%s: the inside branch must assign the inner spline's results under the mask" % un_name, a)
+            inner_kwargs = {k.arg: k.value for k in a.value.keywords}
+            continue
+        if isinstance(st, ast.Return):
+            if ast.unparse(st.value) != "(outputs, logabsdet)":
+                raise Untranslatable("%s: return form" % un_name, st)
+            seen_return = True
+            continue
+        raise Untranslatable("%s: statement form (only masked element-wise statements are understood)" % un_name, st)
+    if inner_kwargs is None or not seen_return or set(outside_vals) - {k for k in outside_vals if k.startswith("_pad_")} != {"outputs", "logabsdet"}:
+        raise Untranslatable("%s: incomplete wrapper" % un_name, un)
+    # arguments of the inner call, in the order of its signature
+    args = []
+    etr = ExprTr(dict(env_scal), consts=src.consts)
+    for n, d in isig:
+        if n in inner_kwargs:
+            v, masked = _strip_mask(inner_kwargs[n], mask_name)
+            if d is None:
+                if not (masked and isinstance(v, ast.Name) and v.id in tensor_expr):
+                    raise Untranslatable("%s: tensor argument %s must be taken under the mask" % (un_name, n), inner_kwargs[n])
+                args.append(tensor_expr[v.id])
+            elif n in BOOLS:
+                if not (isinstance(v, ast.Name) and v.id in BOOLS):
+                    raise Untranslatable("%s: flag argument %s" % (un_name, n), v)
+                args.append("b_" + v.id)
+            else:
+                args.append(etr.tr(v))
+        else:
+            if d is None:
+                raise Untranslatable("%s: tensor argument %s not passed" % (un_name, n), un)
+            if n in BOOLS:
+                args.append("true" if ast.unparse(d) == "True" else "false")
+            else:
+                args.append(ExprTr({}, consts=src.consts).tr(d))
+    unknown = set(inner_kwargs) - {n for n, _ in isig}
+    if unknown:
+        raise Untranslatable("%s: unknown keyword %s" % (un_name, sorted(unknown)), un)
+    body_args = " ".join(args)
+    for tname in [k[5:] for k in outside_vals if k.startswith("_pad_")]:
+        if outside_vals["_pad_" + tname] != {"first", "last"}:
+            raise Untranslatable("%s: both ends of %s must receive the constant" % (un_name, tname), un)
+        body_args = body_args.replace("PAD_" + tname, const_term)
+    if "PAD_" in body_args:
+        raise Untranslatable("%s: padded vector without constants" % un_name, un)
+    inside = GuardTr(dict(env_scal, inputs="x"), minmax={}, consts=src.consts).trb(mask_expr)
+    tens_b = " ".join("p_" + n for n in tensors_un[1:])
+    scal_b = " ".join("v_" + n for n in scal_un if n not in BOOLS)
+    bool_b = " ".join("b_" + n for n in scal_un if n in BOOLS)
+    inner_ty = " -> ".join(["T"] + ["list T"] * (len(tensors_in) - 1) + [("bool" if n in BOOLS else "T") for n, d in isig if d is not None] + ["T * T"])
+    text = ("Definition %s_tails_elem {T : Type} (O : ops T) (inner : %s) (x : T) (%s : list T)%s%s : T * T :=\n"
+            "  if %s then inner %s else (%s, %s).\n"
+            % (prefix, inner_ty, tens_b, " (%s : T)" % scal_b if scal_b else "", " (%s : bool)" % bool_b if bool_b else "",
+               inside, body_args, outside_vals["outputs"], outside_vals["logabsdet"]))
+    return (prefix + "_tails_elem", text)
+
+
+def g_tail_wrappers(repo):
+    defs = [("pad_ends", "Definition pad_ends {T : Type} (c : T) (l : list T) : list T := c :: l ++ [c].\n")]
+    for rel, un, inner, prefix in (("nflows/transforms/splines/linear.py", "unconstrained_linear_spline", "linear_spline", "lin"),
+                                   ("nflows/transforms/splines/quadratic.py", "unconstrained_quadratic_spline", "quadratic_spline", "quad"),
+                                   ("nflows/transforms/splines/cubic.py", "unconstrained_cubic_spline", "cubic_spline", "cub"),
+                                   ("nflows/transforms/splines/rational_quadratic.py", "unconstrained_rational_quadratic_spline",
+                                    "rational_quadratic_spline", "rq")):
+        defs.append(tail_wrapper(Source(repo, rel), un, inner, prefix))
+    return defs, ""
+
+
+GROUPS += [("TailWrappers", g_tail_wrappers, ["nflows/transforms/splines/linear.py", "nflows/transforms/splines/quadratic.py",
+                                               "nflows/transforms/splines/cubic.py", "nflows/transforms/splines/rational_quadratic.py"])]
